@@ -10,7 +10,7 @@ TRUST = ("Trusted: TLC/JVM and the Json community module; the harness's pretty-p
 CHECKS = {
  "C01": dict(cat="model_checking", engine="refine",
    tech="TLA+ product exploration (PoryLang x ScriptVM) of real compiler output with TLC",
-   text="TLC explores the synchronous product of the TLA+ reference semantics of the source (PoryLang) with the TLA+ semantics of the target (ScriptVM) over the assembly the real compiler emitted, from the script entry and every user label, under every game-state oracle (memo cleared by each command); loops are closed by finiteness of the product graph. optimize on and off.",
+   text="TLC explores the synchronous product of the TLA+ reference semantics of the source (PoryLang) with the TLA+ semantics of the target (ScriptVM) over the assembly the real compiler emitted, from the script entry and every user label, under every game-state oracle (memo cleared by each command); loops are closed by finiteness of the product graph. optimize on and off. Programs: the repository's own test literals (emitter-only mode), the exhaustive GenCtl family, seeded programs, and seeded whole files whose commands and AutoVar conditions carry inline text / moves() (a source token @data:<k> must match a label whose definition in the real output is what Emission.tla says: Refine!TokMatch).",
    note=TRUST + "oracles are exhaustive per program.", ref="DESIGN.md sec. 3, 5/C01"),
  "C02": dict(cat="model_checking", engine="refine",
    tech="TLA+ product exploration over the TLC-enumerated expression family (GenExpr.tla)",
@@ -22,7 +22,7 @@ CHECKS = {
    note=TRUST + "exhaustive within the stated bound.", ref="DESIGN.md sec. 5/C03"),
  "C04": dict(cat="model_checking", engine="static+vmonly",
    tech="TLA+ state predicates (AsmStatic.tla) and TLC exploration of ScriptVM alone (VMOnly.tla) over real outputs",
-   text="For each real output TLC evaluates: labels unique, generated jump targets / hoisted arguments / obliged names defined, every user label present exactly once; and explores ScriptVM from every code label under all answers to show no run-off, no dangling generated label, no branch on an undefined comparison.",
+   text="For each real output TLC evaluates: labels unique, generated jump targets / hoisted arguments / obliged names defined, every user label present exactly once; and explores ScriptVM from every code label under all answers to show no run-off, no dangling generated label, no branch on an undefined comparison. Duplicate-name family: every pair of kinds (script, mapscripts, text, movement, mart, in-script label) given the same name must be rejected or else UniqueLabels fails (18 of the 21 pairs are open known findings keyed dup:<kind>/<kind>; any other pair is a violation).",
    note=TRUST + "user names never imitate generated names (generator invariant).", ref="DESIGN.md sec. 5/C04"),
  "C05": dict(cat="model_checking", engine="vv+static",
    tech="TLA+ product exploration ScriptVM(optimized) x ScriptVM(unoptimized) plus AsmStatic predicates",
@@ -30,35 +30,35 @@ CHECKS = {
    note=TRUST + "oracles exhaustive per program.", ref="DESIGN.md sec. 5/C05"),
  "C06": dict(cat="model_checking", engine="hoisttrace",
    tech="TLA+ state machine (Hoist.tla) model-checked on its own, plus trace validation (HoistTrace.tla) of recorded compilations",
-   text="Hoist.tla (table, per-script counters, definitions) is model-checked for all occurrence sequences over small sets (bijection, distinct names, gap-free numbering); every compiled file is then replayed event by event - inline occurrences in source order with the label found at that argument position in the real output, user definitions, outcome, every text/movement definition of the output - and each event must be the model's step. Files: the exhaustive GenHoist family plus seeded files with inline data inside control constructs, AutoVar conditions, inline map scripts, format(), and clashing user names.",
+   text="Hoist.tla (table, per-script counters, definitions) is model-checked for all occurrence sequences over small sets (bijection, distinct names, gap-free numbering); every compiled file is then replayed event by event - inline occurrences in source order with the label found at that argument position in the real output, user definitions, outcome, every text/movement definition of the output - and each event must be the model's step. Files: the exhaustive GenHoist family plus seeded files with inline data inside control constructs, AutoVar conditions, inline map scripts, format(), files written with poryswitch around what they denote, and user texts / movements named like the k-th generated label of a script, before and after it.",
    note=TRUST + "format() contents are obtained from the real FormatText (C07 judges that function).", ref="DESIGN.md sec. 5/C06"),
  "C08": dict(cat="model_checking", engine="mapscripts+refine",
    tech="TLA+ recogniser of the emitted header/tables (MapScripts.tla), Refine product for inline bodies, HoistTrace for their inline data",
-   text="For every mapscripts statement of seeded files (any number/order of plain, inline and table entries, several statements per file, scripts in between) TLC checks header order and terminator, table rows and terminators, each inline script defined exactly once and local; every inline script is explored against the reference semantics of its body in the Refine product; inline text/moves() inside inline scripts is trace-validated against Hoist.",
+   text="For every mapscripts statement of seeded files (any number/order of plain, inline and table entries, several statements per file, scripts in between) TLC checks header order and terminator, table rows and terminators, each inline script defined exactly once and local; every inline script is explored against the reference semantics of its body in the Refine product (inline text / moves() arguments resolved by Refine!TokMatch); inline text/moves() inside inline scripts is also trace-validated against Hoist.",
    note=TRUST + "map script types within one statement are distinct.", ref="DESIGN.md sec. 5/C08"),
  "C09": dict(cat="exploration", engine="textemit",
    tech="TLA+ emission rules (Emission.tla/TextEmit.tla) evaluated by TLC on the directive lines the real compiler emitted",
-   text="Every content of length <= 3 over an alphabet hitting the terminator rules x 4 string types (enumerated by TLC) in rotating origins (inline, text statement, poryswitch matched/default, format()), plus multi-part literals: directive name, one line per source part in order, concatenation, exactly one terminator.",
-   note=TRUST + "a raw newline inside one pair of quotes is outside the domain.", ref="DESIGN.md sec. 5/C09"),
+   text="Every content of length <= 3 over an alphabet hitting the terminator rules x 4 string types (enumerated by TLC) in rotating origins (inline, text statement, poryswitch matched/default, format()), plus multi-part literals: directive name, one line per source part in order, concatenation, exactly one terminator. The alphabet includes a line break inside the quotes (TextEmit!Denoted: the break and the blanks after it are one space) and comment openers inside quotes. The same kind of texts (with %, backslashes) go through the real binary on stdout and with -o and must equal the library's answer.",
+   note=TRUST + "format() lines are taken from the real FormatText (C07 judges that function).", ref="DESIGN.md sec. 5/C09"),
  "C10": dict(cat="exploration", engine="commands",
    tech="TLA+ predicate (Commands.tla) comparing written statements with emitted lines, over the TLC-enumerated argument family",
-   text="Every argument of GenArgs.tla is used at least once in straight-line scripts mixed with labels and label-like commands; TLC checks that the emitted lines are exactly the written statements, token for token, in order, once each, followed by return.",
-   note=TRUST + "arguments are non-empty and contain no string/format()/moves().", ref="DESIGN.md sec. 5/C10"),
+   text="Every argument of GenArgs.tla is used at least once in straight-line scripts mixed with labels and label-like commands; TLC checks that the emitted lines are exactly the written statements, token for token, in order, once each, followed by return. Commands with inline text / moves() arguments in every construct (if/elif/else, loops, switch cases and default, inline map scripts, AutoVar conditions) are explored by the Refine product with the data resolved.",
+   note=TRUST + "arguments are non-empty (the property's quantifier).", ref="DESIGN.md sec. 5/C10"),
  "C12": dict(cat="translation_validation", engine="poryswitch",
    tech="pairing of two real compilations (program with poryswitch vs its resolved form) judged by Poryswitch.tla",
    text="Poryswitch-free files R are decorated into P with poryswitch nodes in all four positions (statements, text, movement/moves(), mart), colon and brace forms, nested, selected by match or by '_', with distractor cases containing inline data; TLC checks every generated node against the selection rule and that compile(P, s) and compile(R) are line-identical; unresolvable nodes must make compilation fail.",
    note=TRUST + "P resolves to R by construction, validated per node by TLC against Selected.", ref="DESIGN.md sec. 5/C12"),
  "C13": dict(cat="translation_validation", engine="constants",
    tech="pairing of two real compilations (with constants vs written out) judged by Constants.tla",
-   text="Files with 1-4 constants (single/multi-token, defined from earlier constants, named like steps/labels/commands) used at every documented site and present at every non-site; TLC validates the written-out values against Expand and checks line-identical outputs; redefinitions must be rejected.",
+   text="Files with 1-4 constants (single/multi-token, defined from earlier constants, named like steps/labels/commands) used at every documented site and present at every non-site; TLC validates the written-out values against Expand and checks line-identical outputs; redefinitions must be rejected; a case value spelled twice, once through a constant, must be rejected like the written-out duplicate.",
    note=TRUST + "at sites whose own syntax ends at the first ')' only parenthesis-free values are written out.", ref="DESIGN.md sec. 5/C13"),
  "C14": dict(cat="exploration", engine="listemit",
    tech="TLA+ list rules (Emission.tla/ListEmit.tla, run-length encoded) evaluated by TLC on emitted lists",
-   text="Every list of <= 3 (4) entries over two names and the terminator with multipliers, plus boundary multipliers, as movement statement, moves() and mart, partly routed through poryswitch: expansion, order, single terminator, nothing after the first terminator, .align 2 / .2byte, rejection of multipliers outside 1..9999.",
+   text="Every list of <= 3 (4) entries over two names and the terminator with multipliers, plus boundary multipliers, as movement statement, moves() and mart, partly routed through poryswitch: expansion, order, single terminator, nothing after the first terminator, .align 2 / .2byte, rejection of multipliers outside 1..9999; every moves() list is preceded by a sibling list that differs in one multiplier only.",
    note=TRUST + "exhaustive within the bound.", ref="DESIGN.md sec. 5/C14"),
  "C15": dict(cat="exploration", engine="static",
    tech="TLA+ predicate AsmStatic!ScopesAsStated over every label definition of real outputs for the TLC-enumerated GenTop family",
-   text="Every file of <= 3 top-level statements over the statement kinds x {none, global, local}: each top-level and user label has the stated/default scope and every other (compiler-invented) label is local.",
+   text="Every file of <= 3 top-level statements over the statement kinds x {none, global, local}: each top-level and user label (plain, (global), (local)) has the stated/default scope and every other (compiler-invented) label is local.",
    note=TRUST + "labels written inside raw blocks are the author's text and exempt.", ref="DESIGN.md sec. 5/C15"),
  "C07": dict(cat="model_checking", engine="formattext",
    tech="TLA+ state machine of the greedy text-box filler (FormatText.tla) model-checked by TLC, and conformance of the real FormatText / format() against FormatText!Run",
@@ -66,27 +66,27 @@ CHECKS = {
    note=TRUST + "'prompt may follow' = another token follows and the line is the last of the box or the next token is \\p.", ref="DESIGN.md sec. 5/C07"),
  "C16": dict(cat="exploration", engine="linemarkers",
    tech="TLA+ predicates (LineMarkers.tla) on three real compilations per file, markers traced to constructs through identity tokens",
-   text="Seeded files with every construct kind, identity tokens renamed apart, laid out pretty / on one line / with random blanks, newlines, CRLF and comments at every gap: output with markers minus marker lines = output without; no markers without a path; every marker names the path and a line inside the input and inside the span of the construct that produced the following output line.",
+   text="Seeded files with every construct kind, identity tokens renamed apart, laid out pretty / on one line / with random blanks, newlines, CRLF and comments at every gap: output with markers minus marker lines = output without; no markers without a path; every marker names the path and a line inside the input and inside the span of the construct that produced the following output line (the k-th line of a raw block: exactly k lines below its opening backtick). The real binary with -i, on stdin and with leading blank lines must answer like the library.",
    note=TRUST + "a text statement's span starts at its keyword; an AutoVar operand's construct is the command call.", ref="DESIGN.md sec. 5/C16"),
  "C17": dict(cat="exploration", engine="session",
    tech="TLA+ trace spec (Session.tla: the process history is functional) over schedules enumerated by TLC, with fresh-process reference results; SameOut.tla for independence",
-   text="Every schedule of <= 3 (4) compilations over pools of 4 inputs (hand-made near-duplicates and seeded files) is executed in one process, plus 16-way concurrent compilations; the history, prefixed by the result each input gives in a fresh process, must be functional. Independence: a file's output equals the join of its statements compiled alone, and inserting an unrelated statement only inserts its block.",
+   text="Every schedule of <= 3 (4) compilations over pools of 4 inputs (hand-made near-duplicates and seeded files) is executed in one process, plus 16-way concurrent compilations; the history, prefixed by the result each input gives in a fresh process, must be functional. Pools include a font config without a default font and several input paths with markers on. Independence: a file's output equals the join of its statements compiled alone, inserting an unrelated statement only inserts its block, and format() texts in two fonts that give a control code different widths do not influence each other.",
    note=TRUST + "digests are SHA-1 of output or error text.", ref="DESIGN.md sec. 5/C17"),
  "C18": dict(cat="exploration", engine="robust",
    tech="TLA+ outcome rules (Robust.tla) evaluated by TLC on the outcomes of the real compiler over the TLC-enumerated single-edit neighbourhood (GenMut.tla)",
-   text="Every truncation, deletion, duplication, adjacent swap and (sampled in the quick tier) substitution / insertion of each vocabulary token incl. hostile runes, applied to token windows of seeded files, under 4 option sets, normal and lint mode, with wall-clock limit and heap watch: outcome is output or an error located inside the input, lint accepts what normal accepts and never blames switches or fonts.",
+   text="Every truncation, deletion, duplication, adjacent swap and (sampled in the quick tier) substitution / insertion of each vocabulary token incl. hostile runes, applied to token windows of seeded files and to every condition shape of <= 3 leaves (complete neighbourhood in the thorough tier), under 4 option sets, normal and lint mode, with wall-clock limit and heap watch: outcome is output or an error located inside the input, lint accepts what normal accepts and never blames switches or fonts.",
    note=TRUST + "crash-freedom is explored, not decided; inputs are valid UTF-8.", ref="DESIGN.md sec. 5/C18"),
  "C19": dict(cat="model_checking", engine="lextrace",
    tech="TLA+ position model (LexPos.tla) with trace validation (LexTrace.tla) of the real lexer's token stream; SameOut.tla for layout independence of compiled output",
-   text="Every pair of token-class representatives x separators at the three gaps (TLC-enumerated, GenLex.tla), every representative as the last thing in the input, and seeded longer lists: each token the real lexer returns must have the predicted type, literal, line, byte and character start, and end for single-line tokens; EOF at the final position and nothing else. Seeded files are compiled in three layouts and must give identical output.",
+   text="Every pair of token-class representatives x separators at the three gaps (TLC-enumerated, GenLex.tla), every representative as the last thing in the input, and seeded longer lists (representatives include identifiers starting with multi-byte letters, multi-line string literals, comment openers inside strings): each token the real lexer returns must have the predicted type, literal, line, byte and character start, and end for single-line tokens; EOF at the final position and nothing else. Seeded files are compiled in three layouts and must give identical output.",
    note=TRUST + "a separator that would glue two lexemes (or merge two string literals) is not a layout.", ref="DESIGN.md sec. 5/C19"),
  "C20": dict(cat="exploration", engine="reject",
    tech="TLA+ static rules (Reject.tla over the PoryLang node tables) evaluated by TLC on the outcome of the real compiler",
-   text="break and continue inserted at every position of every block of the GenCtl family and seeded programs (legal and illegal): rejected iff Reject.tla says illegal, on the line of the first offending keyword; duplicate cases, two defaults, redefined constants, text/movement/label clashes with generated names, each with non-violating twins, at nesting depths 0-3 with shifted line numbers.",
+   text="break and continue inserted at every position of every block of the GenCtl family and seeded programs (legal and illegal): rejected iff Reject.tla says illegal, on the line of the first offending keyword; duplicate cases, two defaults, redefined constants, text/movement/label clashes with generated names, each with non-violating twins, at nesting depths 0-3 with shifted line numbers; error lines also through the real binary for sources with leading blank / CRLF / comment lines.",
    note=TRUST + "continue at the end of a non-final case body is exempt (parser documented stricter).", ref="DESIGN.md sec. 5/C20"),
  "C11": dict(cat="model_checking", engine="refine",
    tech="TLA+ product exploration with AutoVar leaves as command+read",
-   text="Every expression shape with <= 3 leaves x every placement of 1-2 AutoVar leaves (name- and position-configured), as if/elif/while/do-while conditions and switch operands; the product shows each AutoVar command runs exactly once per evaluation in short-circuit order and the configured var is compared. The real binary with -cc <json> is shown to produce the same text.",
+   text="Every expression shape with <= 3 leaves x every placement of 1-2 AutoVar leaves (name- and position-configured), as if/elif/while/do-while conditions and switch operands; the product shows each AutoVar command runs exactly once per evaluation in short-circuit order and the configured var is compared. AutoVar commands taking inline text, alone and as first / middle / last operand of && and || chains, are explored with the data resolved (Refine!TokMatch). The real binary with -cc <json> is shown to produce the same text.",
    note=TRUST + "the compared var is computed by the generator from the config, independently of the parser.", ref="DESIGN.md sec. 5/C11"),
 }
 
@@ -132,6 +132,8 @@ def main():
             {"name": "traces", "path": "spec/LexTrace.tla, spec/Session.tla", "serves_properties": ["C17", "C19"], "kind_free_text": "deterministic trace replay"},
             {"name": "outcomes", "path": "spec/Robust.tla, spec/Reject.tla, spec/LineMarkers.tla", "serves_properties": ["C16", "C18", "C20"], "kind_free_text": "rules evaluated on recorded outcomes"},
             {"name": "emission", "path": "spec/Emission.tla", "serves_properties": ["C09", "C14", "C08", "C10"], "kind_free_text": "emission rules evaluated on recorded outputs"},
+            {"name": "cli", "path": "spec/SameOut.tla, harness/cli.go", "serves_properties": ["C09", "C12", "C16", "C20", "C11"], "kind_free_text": "the real binary must answer like the library (files, stdin, stdout, options)"},
+            {"name": "implementation-models", "path": "spec/Lowering.tla, spec/LoweringConform.tla, spec/LoweringRefine.tla, spec/ParserModel.tla, spec/ParserConform.tla, spec/ParserAll.tla", "serves_properties": [], "kind_free_text": "models of the emitter's and the condition parser's algorithms, bound line-for-line / tree-for-tree to the real code (./check lowering, ./check parsermodel, ./check selftest); drift reports, never verdicts"},
         ],
         "checks": checks,
         "not_applicable": na,
